@@ -37,7 +37,7 @@ ASSUMPTIONS = c02.ASSUMPTIONS + [
     "when several refusal conditions apply to one request any of their codes is accepted",
     "block upload is legally downgraded, so only block download counts as unsupported",
 ]
-BUDGET = {"quick": 50, "thorough": 420}
+BUDGET = {"quick": 150, "thorough": 420}
 
 NODE = c02.NODE
 
